@@ -443,3 +443,79 @@ pub fn run_equiv(c: &HugeFan, rec: &mut Rec) -> CheckResult {
     }
     Ok(())
 }
+
+/// One unattacked argument attacking every other one: a single connected component of `n` arguments with an
+/// out-degree of n - 1, put to the SAT-based solvers (the sub-framework extraction and the encoders see more
+/// than 2^20 arguments; the SAT problem itself is trivial). Extensions: {hub} under every semantics.
+pub fn run_out_hub(pid: &str, n: u32, decreasing: bool, rec: &mut Rec) -> CheckResult {
+    let _one = HUGE_ONE_AT_A_TIME.lock().unwrap_or_else(|p| p.into_inner());
+    let n = n as usize;
+    let mut t = String::with_capacity(12 * n);
+    t.push_str(&format!("p af {}\n", n));
+    if decreasing {
+        for j in (2..=n).rev() {
+            t.push_str(&format!("1 {}\n", j));
+        }
+    } else {
+        for j in 2..=n {
+            t.push_str(&format!("1 {}\n", j));
+        }
+    }
+    let af: AAFramework<usize> = Iccma23Reader::default()
+        .read(&mut t.as_bytes())
+        .map_err(|e| Failure::new(format!("{}/out-hub/reader-rejected-generated-file", pid), e.to_string()))?;
+    drop(t);
+    rec.class("out-degree-hub-above-2^20-through-the-sat-based-solvers");
+    let ctx = format!("argument 1 attacks the arguments 2..={} ({} order)", n, if decreasing { "decreasing" } else { "increasing" });
+    let leaves = [2usize, n / 2, n - 1, n];
+    match pid {
+        "C01" => {
+            rec.evals(3);
+            let r = guard(|| {
+                let a = SemiStableSemanticsSolver::new(&af).compute_one_extension().map(|e| e.iter().map(|x| *x.label()).collect::<Vec<usize>>());
+                let b = StableSemanticsSolver::new(&af).compute_one_extension().map(|e| e.iter().map(|x| *x.label()).collect::<Vec<usize>>());
+                let c = PreferredSemanticsSolver::new(&af).compute_one_extension().map(|e| e.iter().map(|x| *x.label()).collect::<Vec<usize>>());
+                (a, b, c)
+            })
+            .map_err(|p| Failure::new("C01/out-hub/panic", format!("{}; {}", p, ctx)))?;
+            for (name, e) in [("SE-SST", r.0), ("SE-ST", r.1), ("SE-PR", r.2)] {
+                if e != Some(vec![1]) {
+                    return Err(Failure::new(format!("C01/out-hub/{}/not-the-extension", name), format!("returned {:?} members, expected [1]; {}", e.map(|v| v.len()), ctx)));
+                }
+            }
+        }
+        _ => {
+            let cred = pid == "C02";
+            for (i, a) in std::iter::once(1usize).chain(leaves).enumerate() {
+                let expected = i == 0;
+                rec.evals(3);
+                let got = guard(|| {
+                    if cred {
+                        (
+                            CompleteSemanticsSolver::new(&af).is_credulously_accepted(&a),
+                            StableSemanticsSolver::new(&af).is_credulously_accepted(&a),
+                            SemiStableSemanticsSolver::new(&af).is_credulously_accepted(&a),
+                        )
+                    } else {
+                        (
+                            PreferredSemanticsSolver::new(&af).is_skeptically_accepted(&a),
+                            StableSemanticsSolver::new(&af).is_skeptically_accepted(&a),
+                            SemiStableSemanticsSolver::new(&af).is_skeptically_accepted(&a),
+                        )
+                    }
+                })
+                .map_err(|p| Failure::new(format!("{}/out-hub/panic", pid), format!("{}; {}", p, ctx)))?;
+                let names = if cred { ["DC-CO", "DC-ST", "DC-SST"] } else { ["DS-PR", "DS-ST", "DS-SST"] };
+                for (name, g) in names.iter().zip([got.0, got.1, got.2]) {
+                    if g != expected {
+                        return Err(Failure::new(format!("{}/out-hub/{}/got-{}-expected-{}", pid, name, g, expected), format!("argument {}; {}", a, ctx)));
+                    }
+                }
+            }
+        }
+    }
+    if rec.nontrivial(&("out-hub", n, decreasing)) {
+        rec.sample(|| json!({"out_degree_hub": {"arguments": n, "attack_lines": if decreasing {"decreasing"} else {"increasing"}}}));
+    }
+    Ok(())
+}
